@@ -5,6 +5,7 @@
 //   - no file handle left open when a call returns (shim.OpenHandles), on success, failure, fault or cancellation,
 //   - every call returns (per-call watchdog),
 //   - nothing outside the call's destination (and, for move/remove/clean, its source) changes; a copy never changes its source.
+//
 // Correspondence: every call's projected result and the dump after it are emitted as Coq cases and compared with the
 // reference model R (GU.C06.Model.check_case) evaluated by vm_compute.
 package main
@@ -16,6 +17,7 @@ import (
 	"os/exec"
 	"path/filepath"
 	"strings"
+	"time"
 
 	"verif/harness/internal/h"
 )
@@ -35,6 +37,7 @@ type step struct {
 	after   [2]Dump
 	before  [2]Dump
 	dumpErr [2]error
+	skip    [2]bool
 }
 
 var verbose = os.Getenv("VERIF_C06_VERBOSE") != ""
@@ -79,7 +82,27 @@ func setup(p Program) ([2]*backend, error) {
 
 // runProgram executes the program on both back ends, applies the oracles, and returns the trace
 // (truncated at the first call after which the back ends no longer agree, or a call hung).
+// outOfTime: the run's time budget (set by the supervisor) is exhausted — hung calls cost seconds each; the run then
+// stops starting new programs and says so in the evidence.
+func outOfTime(r *h.Run) bool {
+	var dl int64
+	fmt.Sscan(os.Getenv("VERIF_C06_DEADLINE"), &dl)
+	if dl == 0 || time.Now().Unix() < dl {
+		return false
+	}
+	if !budgetNoted {
+		budgetNoted = true
+		r.Note(fmt.Sprintf("time budget exhausted after %d programs: remaining programs not run", progSeq))
+	}
+	return true
+}
+
+var budgetNoted bool
+
 func runProgram(r *h.Run, p Program, strict bool, emit bool) []step {
+	if outOfTime(r) {
+		return nil
+	}
 	progSeq++
 	for _, x := range strings.Split(os.Getenv("VERIF_C06_SKIP"), ",") {
 		if x == fmt.Sprint(progSeq) {
@@ -98,6 +121,7 @@ func runProgram(r *h.Run, p Program, strict bool, emit bool) []step {
 	defer func() { _ = os.RemoveAll(bes[0].root) }()
 	var trace []step
 	var prev [2]Dump
+	var tainted [2]bool
 	for i := range bes {
 		prev[i], _ = bes[i].dump()
 	}
@@ -111,8 +135,20 @@ func runProgram(r *h.Run, p Program, strict bool, emit bool) []step {
 		_ = os.WriteFile(filepath.Join(r.Out, "current_call"), []byte(fmt.Sprint(ci)), 0o644)
 		for i, b := range bes {
 			s.before[i] = prev[i]
+			if tainted[i] {
+				s.skip[i] = true
+				s.after[i] = prev[i]
+				continue
+			}
 			s.res[i], s.open[i] = b.run(c)
 			s.after[i], s.dumpErr[i] = b.dump()
+			if c.FaultAt > 0 && b.name == "mem" && len(p.Calls) > 1 {
+				// An injected I/O error can make Exists() answer false for a directory; Touch / WriteFile then create a file over it,
+				// which leaves afero's MemMapFs internally inconsistent (a later, innocent Rename aborts the process).  Faulted calls
+				// are judged on their own (and swept on fresh file systems by the corpus); the in-memory back end is not used for the
+				// rest of such a program.
+				tainted[i] = true
+			}
 		}
 		r.Eval()
 		r.Count("op=" + c.Op)
@@ -162,12 +198,23 @@ func supervise() {
 			out = os.Args[i+1]
 		}
 	}
+	budget := 75 * time.Second
+	for i, a := range os.Args {
+		if a == "-tier" && i+1 < len(os.Args) && os.Args[i+1] == "thorough" {
+			budget = 15 * time.Minute
+		}
+		if a == "-deep" {
+			budget = 15 * time.Minute
+		}
+	}
+	deadline := time.Now().Add(budget)
 	var crashes []h.Failure
 	var skip []string
 	for attempt := 0; attempt < 8; attempt++ {
 		_ = os.Remove(filepath.Join(out, "obs.json"))
 		cmd := exec.Command(os.Args[0], os.Args[1:]...)
-		cmd.Env = append(os.Environ(), "VERIF_C06_CHILD=1", "VERIF_C06_SCRATCH="+tmp, "VERIF_C06_SKIP="+strings.Join(skip, ","))
+		cmd.Env = append(os.Environ(), "VERIF_C06_CHILD=1", "VERIF_C06_SCRATCH="+tmp, "VERIF_C06_SKIP="+strings.Join(skip, ","),
+			"VERIF_C06_DEADLINE="+fmt.Sprint(deadline.Unix()))
 		cmd.Stdout = os.Stdout
 		var errb strings.Builder
 		cmd.Stderr = &errb
@@ -233,7 +280,8 @@ func main() {
 		return
 	}
 	r := h.Init("C06")
-	r.Imports = []string{"GU.C06.Model"}
+	r.Imports = []string{"GU.C06.Model", "GU.C06.Vfs"}
+	r.CheckFn = "check_case_m"
 	r.ShardSize = 60
 	r.Rule("programs of 1..40 API calls (mkdir, touch, write, read, ls, lsrec, tree, subdirs, findall, exists/isfile/isdir/isempty, size, hash, rm, clean, copy, copytofile, copytodir, move, relpath) " +
 		"over paths of 1..3 components from a 6-name alphabet (+ trailing separators, the empty string, the sandbox root), on the OS and the in-memory back end from the same initial tree; " +
